@@ -38,6 +38,22 @@ def run(ctx):
             sig = "c16:deadlock:" + "+".join(sorted({s for p in inv for s in p["sites"]}))[:200]
             ctx.violation(sig, "Locks.tla: these lock programs, recorded from the library in scenario %s, deadlock in some interleaving: %s" % (inv[0]["scen"], desc[:1500]),
                           {"programs": inv, "tlc": tlcout[-3000:]})
+    if progs and not ctx.quick:
+        # triples, scenario by scenario (the combinations are enumerated inside TLC: keep each input small)
+        scens = sorted({p["scen"] for p in progs})[:6]
+        for sc in scens:
+            sub = [p for p in progs if p["scen"] == sc]
+            if len(sub) > 260:
+                continue
+            pj3 = os.path.join(out, "progs-s%d.json" % sc)
+            json.dump([{"scen": p["scen"], "ops": p["ops"]} for p in sub], open(pj3, "w"))
+            got, chosen, tlcout = ctx.lockmc(pj3, 3, expect="ok", timeout=900, label="scenario %d, triples" % sc)
+            if got.startswith("violates") and chosen:
+                inv = [sub[i - 1] for i in chosen if i > 0]
+                desc = " || ".join("goroutine %s: %s" % (p["g"], " ".join("%s@%s" % (o["op"], s) for o, s in zip(p["ops"], p["sites"]))) for p in inv)
+                sig = "c16:deadlock:" + "+".join(sorted({s for p in inv for s in p["sites"]}))[:200]
+                ctx.violation(sig, "Locks.tla: these three lock programs, recorded in scenario %s, deadlock in some interleaving: %s" % (sc, desc[:1500]),
+                              {"programs": inv, "tlc": tlcout[-3000:]})
     # the same generated programs under the race detector (side oracle: not decided by the specification)
     ctx.go_test("c16", "^TestC16$", timeout=1700, race=True, name="race")
     ctx.assumptions += [
